@@ -23,7 +23,7 @@ run_one() {
 }
 export -f run_one
 for s in $(seq 1 $J); do [ -d /tmp/corpus-wt-$s ] || git -C /repo worktree add --detach -q /tmp/corpus-wt-$s HEAD; git -C /tmp/corpus-wt-$s checkout -q --detach $(git -C /repo rev-parse HEAD); done
-if [ $kind = must-fail ]; then dirs=$(ls -d /verif/seeded/C*); else dirs=$(ls -d /verif/benign/B*); fi
+if [ $kind = must-fail ]; then dirs=$(ls -d /verif/seeded/C*); else dirs=$(ls -d /verif/benign/*); fi
 if [ $# -gt 0 ]; then dirs=""; for x in "$@"; do [ $kind = must-fail ] && dirs="$dirs /verif/seeded/$x" || dirs="$dirs /verif/benign/$x"; done; fi
 worker() {
   s=$1; shift; i=0
